@@ -36,6 +36,21 @@ READ_FUNCS = {'len', 'sorted', 'list', 'tuple', 'any', 'all', 'min', 'max', 'sum
               'iter', 'bool', 'copy.copy', 'str', 'repr', 'print', 'itertools.chain', 'chain', 'filter', 'map', 'zip', 'itertools.islice'}
 
 
+BISECT = {'bisect.bisect', 'bisect.bisect_right', 'bisect.bisect_left', 'bisect', 'bisect_right', 'bisect_left'}
+
+
+def bisect_then_insert(call, defs):
+    """`L.insert(i, x)` where i is `bisect.bisect_right(L, x)` (the spelled-out form of bisect.insort): -> True"""
+    f = call.func
+    if not (isinstance(f, ast.Attribute) and f.attr == 'insert' and len(call.args) == 2 and not call.keywords):
+        return False
+    idx = call.args[0]
+    if isinstance(idx, ast.Name) and idx.id in defs:
+        idx = defs[idx.id]
+    return isinstance(idx, ast.Call) and ast.unparse(idx.func) in BISECT and len(idx.args) == 2 and not idx.keywords \
+        and ast.unparse(idx.args[0]) == ast.unparse(f.value) and ast.unparse(idx.args[1]) == ast.unparse(call.args[1])
+
+
 OPAQUE = ('step', 'schedule_event')
 
 
@@ -105,6 +120,10 @@ def check(ctx):
                 mutating = True
                 n_rem += 1
                 family['sorted-list'].append(s)
+            elif name == 'insert' and s.func is not None and bisect_then_insert(call, single_defs(s.func)):
+                mutating = True
+                n_ins += 1
+                family['sorted-list'].append(s)
             elif name in ('append', 'insert', 'extend', 'sort', 'reverse', 'clear', '__setitem__', '__delitem__',
                           'appendleft', 'popleft'):
                 mutating = True
@@ -123,7 +142,7 @@ def check(ctx):
                 mutating = True
                 n_rem += 1
                 family['heap'].append(s)
-            elif callee in READ_FUNCS:
+            elif callee in READ_FUNCS or callee in BISECT:
                 pass
             elif inv.readonly_param(P, s.cls, callee, idx):
                 pass       # handed to a helper of the same class that only reads it
@@ -151,7 +170,7 @@ def check(ctx):
         for s in family['sorted-list']:
             o.fail(P, s.ctx, s.stmt, 'the pending-event list is kept as a heap (heappush/heappop) elsewhere, but this operation treats it as a sorted list: '
                    'removing from or sorted-inserting into a heap breaks the heap order, so a later head is not the minimum', file=s.mod.path, line=s.line)
-    if n_ins < 2:
+    if n_ins < 1:      # (one shared helper may serve schedule_event and unpause; that each of them reaches it is C01.5 / C07.2)
         o.fail(P, 'Environment', 'bisect.insort(self._events, ...)',
                f'expected sorted insertion into the pending-event list in schedule_event and unpause_matching_events, found {n_ins} site(s)',
                file=Env.mod.path, line=Env.node.lineno)
@@ -261,7 +280,8 @@ def check(ctx):
     g = ctx.graph(Env, 'schedule_event', opaque=OPAQUE)
     dk, fn = P.method(Env, 'schedule_event')
     N = Normalizer(P, Env)
-    ins = [n for n in g.nodes.values() if any(ast.unparse(c.func) in SORTED_INSERT and c.args and ast.unparse(c.args[0]) == 'self._events'
+    ins = [n for n in g.nodes.values() if any((ast.unparse(c.func) in SORTED_INSERT and c.args and ast.unparse(c.args[0]) == 'self._events')
+                                              or (bisect_then_insert(c, single_defs(n.frame.func)) and ast.unparse(c.func.value) == 'self._events')
                                               for c in calls_at(g, n))]
     o5.count()
     if len(ins) != 1:
